@@ -19,7 +19,7 @@ pub fn prop() -> Prop {
     Prop {
         id: "C11",
         level: "exploration",
-        rule: "(1) the complete control-template set: statement trees over {block, als, als/anders, counter loops running 0, 1 and 3 iterations, immediately applied function bodies} nested up to N nodes in which every statement position holds one of {numbered trace point, stop, volgende, antwoord, declaration, empty block, expression}, conditions drawn from {ja, nee, counter tests}, with als/zolang also used as values; each compared with the reference interpreter (trace = output, value, error). (2) residue: every loop-body template up to M nodes iterated 0, 1, 2, 100 and 70 000 times and followed by a probe suffix (a two-argument call, an array literal, a second loop) whose output must equal the model's. (3) for every program, the abstract stack machine of its real bytecode (bcmc) must have no cycle that grows the stack. Non-trivial = contains a loop or a branch and is defined by the model; distinct = distinct texts",
+        rule: "(1) the complete control-template set: statement trees over {block, als, als/anders, counter loops running 0, 1 and 3 iterations, immediately applied function bodies} nested up to N nodes in which every statement position holds one of {numbered trace point, stop, volgende, antwoord, declaration, empty block, expression}, conditions drawn from {ja, nee, counter tests}, with als/zolang also used as values; each compared with the reference interpreter (trace = output, value, error). (2) residue: every loop-body template up to M nodes iterated 0, 1, 2, 100 and 70 000 times and followed by a probe suffix (a two-argument call, an array literal, a second loop) whose output must equal the model's. (2b) condition-driven loops (the progress is made by an assignment, a call or a conjunction in the condition) around every body of <= 2 statements from {volgende, stop, trace, empty block, declaration, value, three branch shapes}, 0/1/3 iterations, as a statement and as an array element; (3) for every program, the abstract stack machine of its real bytecode (bcmc) must have no cycle that grows the stack. Non-trivial = contains a loop or a branch and is defined by the model; distinct = distinct texts",
         assumptions: &["the value of a loop that iterated is unspecified (U4) and never compared", "reference interpreter control-flow rules of DESIGN 4.2"],
         run,
         replay,
@@ -310,8 +310,71 @@ fn depth_family(sh: &mut Shard, tier: Tier) {
     });
 }
 
+/// Loops whose progress is made by the CONDITION (an assignment used as a value, a call, a conjunction), so
+/// that the body can be anything at all: empty, a lone `volgende` or `stop`, a declaration, a branch. Every
+/// body of <= 2 statements over the leaf set, 0 / 1 / 3 iterations, as a statement and as an array element
+/// (the neighbours of the loop's value must survive), followed by the residue probe.
+fn cond_loop_family(sh: &mut Shard) {
+    let leaves: Vec<Stmt> = vec![
+        Stmt::Continue,
+        Stmt::Break,
+        print1(int(7)),
+        Stmt::Block(vec![]),
+        let_("v", int(3)),
+        es(int(1)),
+        es(iff(infix(id("n"), Operator::Eq, int(2)), vec![Stmt::Continue], None)),
+        es(iff(infix(id("n"), Operator::Eq, int(2)), vec![Stmt::Break], Some(vec![print1(int(8))]))),
+        es(iff(infix(id("n"), Operator::Eq, int(1)), vec![print1(int(9))], Some(vec![Stmt::Continue]))),
+    ];
+    let mut bodies: Vec<Vec<Stmt>> = vec![vec![]];
+    for a in &leaves {
+        bodies.push(vec![a.clone()]);
+        for b in &leaves {
+            bodies.push(vec![a.clone(), b.clone()]);
+        }
+    }
+    for k in [0i64, 1, 3] {
+        let conds: Vec<Expr> = vec![
+            infix(assign(id("n"), infix(id("n"), Operator::Add, int(1))), Operator::Lte, int(k)),
+            calln("stap", vec![int(k)]),
+            infix(infix(id("n"), Operator::Lt, int(k)), Operator::And, calln("tik", vec![])),
+        ];
+        for cond in &conds {
+            for body in &bodies {
+                for as_element in [false, true] {
+                    if !sh.mine() {
+                        continue;
+                    }
+                    let lp = whil(cond.clone(), body.clone());
+                    let mut prog = vec![
+                        es(func("pr", &["x", "y"], vec![es(array(vec![id("x"), id("y")]))])),
+                        let_("n", int(0)),
+                        es(func("stap", &["k"], vec![es(assign(id("n"), infix(id("n"), Operator::Add, int(1)))), es(infix(id("n"), Operator::Lte, id("k")))])),
+                        es(func("tik", &[], vec![es(assign(id("n"), infix(id("n"), Operator::Add, int(1)))), es(boolean(true))])),
+                    ];
+                    if as_element {
+                        prog.push(let_("arr", array(vec![int(41), lp, int(43)])));
+                        prog.push(es(calln("print", vec![index(id("arr"), int(0)), index(id("arr"), int(2)), calln("lengte", vec![id("arr")])])));
+                    } else {
+                        prog.push(es(lp));
+                    }
+                    prog.push(es(calln("print", vec![calln("pr", vec![int(1), int(2)]), array(vec![int(3), id("n")])])));
+                    prog.push(es(calln("pr", vec![int(5), id("n")])));
+                    renumber_prints(&mut prog);
+                    sh.begin(&|| printer::program(&prog));
+                    sh.count("family:condition-driven-loops");
+                    check_program(sh, "condition-driven-loops", &prog, 100_000);
+                }
+            }
+        }
+    }
+}
+
 fn run(sh: &mut Shard) {
     let tier = sh.cfg.tier;
+    cond_loop_family(sh);
+    // jump-distance ladders (branches, loop bodies and function tails of every size class up to the 64 KiB limit)
+    crate::ladders::run_family(sh, "control-flow", Some("control"), true);
     let t0 = std::time::Instant::now();
     exit_context_family(sh);
     sh.add("ms:exit-contexts", t0.elapsed().as_millis() as u64);
